@@ -42,6 +42,9 @@ def check(c):
             expect(res <= np.linalg.norm(Xp @ Q - Yp) + 1e-8, sig('post[C18]:training-residual-is-minimal-over-all-orthogonal-maps-of-the-padded-size'))
         Xn = rng.normal(size=(5, m)); P = est.predict(Xn)
         expect(np.allclose(np.linalg.norm(P, axis=1), np.linalg.norm(Xn, axis=1), atol=1e-8), sig('post[C18]:predictions-preserve-the-norm-of-their-inputs'))
+        # predict pads new data exactly as fit padded the training data (zeros on the right) and applies the rotation
+        expect(np.allclose(P, np.pad(Xn, [(0, 0), (0, w - m)]) @ Om, atol=1e-9), sig('post[C18]:predict-pads-new-data-identically-and-applies-the-rotation'), f"max dev {np.max(np.abs(P - np.pad(Xn, [(0, 0), (0, w - m)]) @ Om))}")
+        expect(np.allclose(est.predict(X), Xp @ Om, atol=1e-9), sig('post[C18]:predict-on-the-training-data-is-the-fitted-rotation-of-the-padded-training-data'))
     else:
         lin = (Ridge(alpha=1e-8, fit_intercept=False) if c['user'] else LinearRegression()).fit(X, Y)
         W = lin.coef_.T.reshape(m, -1)
